@@ -69,6 +69,7 @@ type c18Scenario struct {
 	Tret      int       `json:"tret"`
 	W         int       `json:"w"`
 	Items     []c18Item `json:"items"`
+	Late      []string  `json:"late,omitempty"`       // servers that are handed their listener only after shutdown has begun
 	WaitTicks int       `json:"wait_ticks,omitempty"` // what is handed to Shutdown (default: w)
 	Selftest  string    `json:"selftest,omitempty"`
 	Idx       int       `json:"idx,omitempty"`
@@ -425,6 +426,65 @@ func (s *c18Server) close() {
 	}
 }
 
+// grpcOpts are the server options main.newGrpcProxy builds (package proxy cannot import main).
+func (w *c18World) grpcOpts() []grpc.ServerOption {
+	mp := metrics.DiscardProvider{}
+	cfg := &config.Config{}
+	cfg.Proxy.Strategy, cfg.Proxy.Matcher = "rr", "prefix"
+	cfg.Proxy.GRPCMaxRxMsgSize, cfg.Proxy.GRPCMaxTxMsgSize = 4<<20, 4<<20
+	cfg.Proxy.GRPCGShutdownTimeout = 200 * time.Millisecond
+	cfg.GlobCacheSize = 16
+	sh := &GrpcStatsHandler{Connect: mp.NewCounter("c"), Request: mp.NewHistogram("r"), NoRoute: mp.NewCounter("n"), Status: mp.NewHistogram("s", "code")}
+	pi := GrpcProxyInterceptor{Config: cfg, StatsHandler: sh, GlobCache: route.NewGlobCache(cfg.GlobCacheSize)}
+	return []grpc.ServerOption{
+		grpc.CustomCodec(grpc_proxy.Codec()),
+		grpc.UnknownServiceHandler(grpc_proxy.TransparentHandler(GetGRPCDirector(nil, cfg))),
+		grpc.StreamInterceptor(pi.Stream),
+		grpc.StatsHandler(sh),
+		grpc.MaxRecvMsgSize(cfg.Proxy.GRPCMaxRxMsgSize),
+		grpc.MaxSendMsgSize(cfg.Proxy.GRPCMaxTxMsgSize),
+	}
+}
+
+// stage takes proxy.serve apart: the server is made and put into the registry of servers -- serve's first
+// step -- and the second step, handing the server its listener, is returned to be taken later.  That is the
+// state a signal finds during start-up.
+func (w *c18World) stage(name string) (*c18Server, func(), error) {
+	kind := c18Base(name)
+	addr, err := c18FreeAddr()
+	if err != nil {
+		return nil, nil, err
+	}
+	l := config.Listen{Addr: addr, Proto: kind}
+	var tlsCfg *tls.Config
+	if kind == "https" || kind == "tcp+tls" {
+		tlsCfg = w.tlsCfg
+	}
+	ln, err := ListenTCP(l, tlsCfg)
+	if err != nil {
+		return nil, nil, err
+	}
+	var srv Server
+	switch kind {
+	case "http", "https":
+		srv = &http.Server{Addr: addr, Handler: w.up, TLSConfig: tlsCfg}
+	case "tcp", "tcp+tls":
+		srv = &tcp.Server{Addr: addr, Handler: &tcp.Proxy{DialTimeout: 5 * time.Second, Lookup: c18Target(w.plainUp.Addr().String())}}
+	case "tcp+sni":
+		srv = &tcp.Server{Addr: addr, Handler: &tcp.SNIProxy{DialTimeout: 5 * time.Second, Lookup: c18Target(w.tlsUp.Addr().String())}}
+	case "grpc":
+		srv = &gRPCServer{server: grpc.NewServer(w.grpcOpts()...)}
+	default:
+		ln.Close()
+		return nil, nil, fmt.Errorf("kind %s cannot be started in two steps", name)
+	}
+	s := &c18Server{kind: name, addr: addr, srv: srv, served: make(chan error, 1)}
+	mu.Lock()
+	servers[ln.Addr().String()] = srv
+	mu.Unlock()
+	return s, func() { go func() { s.served <- srv.Serve(ln) }() }, nil
+}
+
 // start brings one listener of the kind up through the package's own entry point.
 func (w *c18World) start(name, fixedAddr string) (*c18Server, error) {
 	var lastErr error
@@ -441,7 +501,6 @@ func (w *c18World) start(name, fixedAddr string) (*c18Server, error) {
 		}
 		l := config.Listen{Addr: addr, Proto: kind}
 		s := &c18Server{kind: name, addr: addr, served: make(chan error, 1)}
-		mp := metrics.DiscardProvider{}
 		go func() {
 			switch kind {
 			case "http":
@@ -458,21 +517,7 @@ func (w *c18World) start(name, fixedAddr string) (*c18Server, error) {
 				s.served <- ListenAndServeHTTPSTCPSNI(l, w.up, &tcp.SNIProxy{DialTimeout: 5 * time.Second, Lookup: c18Target(w.tlsUp.Addr().String())},
 					w.tlsCfg, func(_ context.Context, host string) bool { return host == c18SNIHost })
 			case "grpc":
-				cfg := &config.Config{}
-				cfg.Proxy.Strategy, cfg.Proxy.Matcher = "rr", "prefix"
-				cfg.Proxy.GRPCMaxRxMsgSize, cfg.Proxy.GRPCMaxTxMsgSize = 4<<20, 4<<20
-				cfg.Proxy.GRPCGShutdownTimeout = 200 * time.Millisecond
-				cfg.GlobCacheSize = 16
-				sh := &GrpcStatsHandler{Connect: mp.NewCounter("c"), Request: mp.NewHistogram("r"), NoRoute: mp.NewCounter("n"), Status: mp.NewHistogram("s", "code")}
-				pi := GrpcProxyInterceptor{Config: cfg, StatsHandler: sh, GlobCache: route.NewGlobCache(cfg.GlobCacheSize)}
-				opts := []grpc.ServerOption{
-					grpc.CustomCodec(grpc_proxy.Codec()),
-					grpc.UnknownServiceHandler(grpc_proxy.TransparentHandler(GetGRPCDirector(nil, cfg))),
-					grpc.StreamInterceptor(pi.Stream),
-					grpc.StatsHandler(sh),
-					grpc.MaxRecvMsgSize(cfg.Proxy.GRPCMaxRxMsgSize),
-					grpc.MaxSendMsgSize(cfg.Proxy.GRPCMaxTxMsgSize),
-				}
+				opts := w.grpcOpts()
 				s.served <- ListenAndServeGRPC(l, opts, nil)
 			default:
 				s.served <- fmt.Errorf("unknown kind %q", kind)
@@ -785,8 +830,22 @@ func (w *c18World) play(sc *c18Scenario, seed int64) (res c18Result) {
 			return
 		}
 	}
+	isLate := map[string]bool{}
+	for _, k := range sc.Late {
+		isLate[k] = true
+	}
+	var lateSteps []func()
 	for _, k := range append(plain, twins...) {
-		s, err := w.start(k, fixed[k])
+		var s *c18Server
+		var err error
+		if isLate[k] {
+			var step func()
+			if s, step, err = w.stage(k); err == nil {
+				lateSteps = append(lateSteps, step)
+			}
+		} else {
+			s, err = w.start(k, fixed[k])
+		}
 		if err != nil {
 			res.setup = err.Error()
 			return
@@ -876,6 +935,13 @@ func (w *c18World) play(sc *c18Scenario, seed int64) (res c18Result) {
 		Shutdown(wait)
 		close(done)
 	}()
+	if len(lateSteps) > 0 {
+		// start-up goes on: the servers that were only registered are handed their listeners now
+		time.Sleep(50 * time.Millisecond)
+		for _, step := range lateSteps {
+			step()
+		}
+	}
 
 	// ---- connection attempts after shutdown has started: every listener, plus what the scenario says
 	type probe struct {
